@@ -32,14 +32,20 @@ Definition env_of (c : ccfg) : env :=
      default_ttl := assoc_z (c_ttl c);
      max_idle := assoc_z (c_idle c) |}.
 
-Definition copies (n : nat) (d k : bytes) (s : state) : list (nat * bool * bytes * Z) :=
+(* the copies that are visible at time now: an expired copy may or may not have been removed by the background
+   eviction workers already, so expired copies are left out on both sides of the comparison *)
+Definition copies (n : nat) (now : Z) (d k : bytes) (s : state) : list (nat * bool * bytes * Z) :=
   flat_map (fun m =>
-    (match lookup {| lm := m; lk := Primary; ld := d; lkey := k |} s with Some e => [(m, false, ev e, ettl e)] | None => [] end) ++
-    (match lookup {| lm := m; lk := Backup; ld := d; lkey := k |} s with Some e => [(m, true, ev e, ettl e)] | None => [] end))
+    (match lookup {| lm := m; lk := Primary; ld := d; lkey := k |} s with
+     | Some e => if visible e now then [(m, false, ev e, ettl e)] else [] | None => [] end) ++
+    (match lookup {| lm := m; lk := Backup; ld := d; lkey := k |} s with
+     | Some e => if visible e now then [(m, true, ev e, ettl e)] else [] | None => [] end))
     (seq 0 n).
 
+(* b = -1: the implementation's reply does not carry the expiry (raw DM.GET) *)
 Definition ttl_close (tol a b : Z) : bool :=
-  if a =? 0 then b =? 0 else negb (b =? 0) && (Z.abs (a - b) <=? tol).
+  if b =? -1 then true
+  else if a =? 0 then b =? 0 else negb (b =? 0) && (Z.abs (a - b) <=? tol).
 
 Definition opt_bytes_eqb (a b : option bytes) : bool :=
   match a, b with Some x, Some y => bytes_eqb x y | None, None => true | _, _ => false end.
@@ -78,7 +84,7 @@ Fixpoint first_diff (c : ccfg) (s : state) (l : list cstep) (i : nat) : option n
     let '(s', m) :=
       match c_op x with
       | COp o => let '(s1, r) := step (env_of c) (c_now x) (Z.of_nat i) s o in (s1, BRes r)
-      | CDump d k => (s, BCopies (copies (c_members c) d k s))
+      | CDump d k => (s, BCopies (copies (c_members c) (c_now x) d k s))
       end in
     if obs_eqb (c_tol x) m (c_obs x) then first_diff c s' l' (S i) else Some i
   end.
@@ -100,7 +106,7 @@ Fixpoint run_obs (c : ccfg) (s : state) (l : list cstep) (i : nat) : list cobs :
     let '(s', m) :=
       match c_op x with
       | COp o => let '(s1, r) := step (env_of c) (c_now x) (Z.of_nat i) s o in (s1, BRes r)
-      | CDump d k => (s, BCopies (copies (c_members c) d k s))
+      | CDump d k => (s, BCopies (copies (c_members c) (c_now x) d k s))
       end in
     m :: run_obs c s' l' (S i)
   end.
